@@ -679,14 +679,29 @@ def r6_fixpoint(ctx):
                 st.targets[0], ast.Name) and isinstance(
                 st.value, ast.Constant) and st.value.value is True:
             moved = st.targets[0].id
+        # the moves are collected / counted instead
+        if isinstance(st, ast.Expr) and isinstance(
+                st.value, ast.Call) and isinstance(
+                st.value.func, ast.Attribute) and st.value.func.attr in (
+                "append", "add") and isinstance(
+                st.value.func.value, ast.Name) and len(st.value.args) == 1:
+            moved = st.value.func.value.id
+        if isinstance(st, ast.AugAssign) and isinstance(
+                st.op, ast.Add) and isinstance(
+                st.target, ast.Name) and isinstance(
+                st.value, ast.Constant) and isinstance(
+                st.value.value, int) and st.value.value > 0:
+            moved = st.target.id
     ctx.check(moved is not None, ins, "every move is recorded in a flag",
               "the repetition of the pass cannot notice that something "
               "moved")
     if moved is None:
         return
     resets = [st for st in rep.body if isinstance(st, ast.Assign)
-              and norm(st.targets[0]) == moved and isinstance(
-                  st.value, ast.Constant) and st.value.value is False]
+              and norm(st.targets[0]) == moved and ((isinstance(
+                  st.value, ast.Constant) and (st.value.value is False
+                                               or st.value.value == 0))
+                  or norm(st.value) in ("[]", "list()", "set()"))]
     pos_pass = [i for i, st in enumerate(rep.body)
                 if any(x is the_pass for x in ast.walk(st))]
     ok = bool(resets) and bool(pos_pass) and rep.body.index(resets[0]) < \
@@ -700,7 +715,9 @@ def r6_fixpoint(ctx):
     Rq = Resolver(fn, keep={moved})
     for st in rep.body[pos_pass[0] + 1 if pos_pass else 0:]:
         if isinstance(st, ast.If) and Rq.text(st.test) in (
-                f"not {moved}",) and any(isinstance(x, ast.Break)
+                f"not {moved}", f"len({moved}) == 0", f"not len({moved})",
+                f"{moved} == 0", f"len({moved}) < 1", f"{moved} < 1") \
+                and any(isinstance(x, ast.Break)
                                          for x in st.body):
             stop = True
     ctx.check(stop, rep, "repetition ends when a whole pass moved nothing",
